@@ -17,7 +17,8 @@ trap 'git -C /repo worktree remove --force $WT >/dev/null 2>&1' EXIT
 export CARGO_TARGET_DIR=$ROOT/repo-target-$ID
 demo_install() {
   if [ -f $SRC/demo_test.rs ]; then
-    DEST=$(grep -ohE "simple-m?dns/tests/[A-Za-z0-9_]+\.rs" $SRC/README.md | head -1)
+    DEST=$(grep -ohE "simple-m?dns/tests/seed[A-Za-z0-9_]*\.rs" $SRC/README.md | head -1)
+    [ -z "$DEST" ] && DEST=$(grep -ohE "simple-m?dns/tests/[A-Za-z0-9_]+\.rs" $SRC/README.md | head -1)
     [ -z "$DEST" ] && DEST=simple-dns/tests/seed_demo.rs
     cp $SRC/demo_test.rs $WT/$DEST
     DEMO_CRATE=$(echo $DEST | cut -d/ -f1); DEMO_NAME=$(basename $DEST .rs)
